@@ -15,14 +15,17 @@ import (
 
 // ruleExhaustiveWalks: the recursive walks over the tree visit every child —
 // no early exit from a range over a node's children (other than returning).
-func ruleExhaustiveWalks(c *Ctx, rule string, funcKeys []string, why string) {
+func ruleExhaustiveWalks(c *Ctx, rule string, roots []*ssa.Function, why string) {
 	a := c.A
 	c.R.Rule(c.R.Property+"."+rule, 1, why)
-	for _, k := range funcKeys {
-		f := c.P.Func(k)
-		if f == nil {
-			continue // helper not present in this tree
+	g := an.NewGraph(c.P)
+	reach := g.Reach(roots, func(_ *ssa.Function, e an.Edge) bool { return e.Kind == "static" || e.Kind == "closure" })
+	n := 0
+	for _, f := range an.SortedFuncs(reach) {
+		if !an.IsLibrary(f) || len(f.Blocks) == 0 {
+			continue
 		}
+		k := c.fk(f)
 		for _, l := range rangeLoops(f) {
 			if _, isCh := fieldLoadOf(l.slice, a.NodeT, a.FChildren); !isCh {
 				continue
@@ -49,8 +52,12 @@ func ruleExhaustiveWalks(c *Ctx, rule string, funcKeys []string, why string) {
 				if path != nil {
 					o.Path = c.P.PathString(path)
 				}
+				n++
 			}
 		}
+	}
+	if n == 0 {
+		c.R.Add(rule, c.fk(roots[0]), "walk:no-range-over-children", c.P.Pos(roots[0].Pos()), true, "no range loop over a node's children below the entry point (the walk is an explicit stack or an iterator: nothing to leave early)")
 	}
 }
 
@@ -379,28 +386,69 @@ func ruleSummaryLockset(c *Ctx, rule string) {
 // handler count, not by the method summary (which carries the TRACE bit even for an emptied node).
 func ruleRoutesLiveness(c *Ctx, rule string) {
 	a := c.A
-	f := c.P.MustFunc("tree.(*node).routes")
 	c.R.Rule(c.R.Property+"."+rule, 1, "Routes() lists exactly the live patterns")
 	n := 0
-	an.AllInstrs(f, func(in ssa.Instruction) {
-		mu, ok := in.(*ssa.MapUpdate)
-		if !ok {
-			return
-		}
-		if _, isParam := mu.Map.(*ssa.Parameter); !isParam {
-			return
-		}
+	for _, mu := range routesListers(c) {
+		in := ssa.Instruction(mu)
+		f := mu.Parent()
 		n++
-		dom := an.DominatedByEdge(in, func(b *ssa.BasicBlock, succ int) bool {
-			return lenPositiveTermEdge(c, b, succ, "recv."+a.FHandlers)
-		})
-		keyOK := c.O.Of(mu.Key).String() == "recv."+a.FPattern
+		key := c.O.Of(mu.Key).String()
+		node := strings.TrimSuffix(key, "."+a.FPattern)
+		keyOK := node != key
+		roots := []*ssa.Function{f}
+		if f != a.TreeRoutes {
+			roots = []*ssa.Function{a.TreeRoutes, f}
+		}
+		dom := false
+		for _, r := range []*ssa.Function{f} {
+			_ = r
+			dom = an.DominatedByEdge(in, func(b *ssa.BasicBlock, succ int) bool {
+				return lenPositiveTermEdge(c, b, succ, node+"."+a.FHandlers)
+			})
+		}
+		_ = roots
 		good := dom && keyOK
 		c.R.Add(rule, c.fk(f), "list:routes[pattern]/iff:has-handlers", c.pos(in), good, ifelse(good, "a node is listed under its pattern exactly when its handler map is not empty", ifelse(!dom, "a node is listed in Routes() without testing that it has handlers: the method summary is not a liveness test (with a TRACE handler configured it is non-zero for a node whose handlers were all removed), so a removed pattern stays listed", "a node is listed under a key that is not its pattern")))
-	})
-	if n == 0 {
-		c.R.Add(rule, c.fk(f), "list:routes[pattern]/iff:has-handlers", c.P.Pos(f.Pos()), false, "node.routes no longer lists anything")
 	}
+	if n == 0 {
+		c.R.Add(rule, c.fk(a.TreeRoutes), "list:routes[pattern]/iff:has-handlers", c.P.Pos(a.TreeRoutes.Pos()), false, "Tree.Routes no longer lists anything")
+	}
+}
+
+// routesListers: the inserts into the map[string][]string that Tree.Routes hands out (in Tree.Routes or in the walk
+// it calls).
+func routesListers(c *Ctx) []*ssa.MapUpdate {
+	g := an.NewGraph(c.P)
+	reach := g.Reach([]*ssa.Function{c.A.TreeRoutes}, func(_ *ssa.Function, e an.Edge) bool { return e.Kind == "static" || e.Kind == "closure" })
+	var out []*ssa.MapUpdate
+	for _, f := range an.SortedFuncs(reach) {
+		if !an.IsLibrary(f) {
+			continue
+		}
+		an.AllInstrs(f, func(in ssa.Instruction) {
+			mu, ok := in.(*ssa.MapUpdate)
+			if !ok {
+				return
+			}
+			m, ok := mu.Map.Type().Underlying().(*types.Map)
+			if !ok {
+				return
+			}
+			kb, ok1 := m.Key().Underlying().(*types.Basic)
+			sl, ok2 := m.Elem().Underlying().(*types.Slice)
+			if !ok1 || !ok2 || kb.Kind() != types.String {
+				return
+			}
+			if eb, ok := sl.Elem().Underlying().(*types.Basic); !ok || eb.Kind() != types.String {
+				return
+			}
+			if _, isConst := mu.Key.(*ssa.Const); isConst {
+				return // the "*" entry
+			}
+			out = append(out, mu)
+		})
+	}
+	return out
 }
 
 // removingInstr: the instruction itself removes handlers or children.
@@ -517,7 +565,6 @@ func ruleLocksSurviveRecovery(c *Ctx, rule string) {
 		}
 	}
 }
-
 
 // ruleCleanTestsEveryChild: node.clean removes exactly the children whose text starts with the prefix — the test
 // `HasPrefix(child text, prefix)` that decides the removal is evaluated for every child of the loop it sits in
